@@ -178,6 +178,9 @@ DONE_RE = re.compile(r'<<\s*"TRACE_(\w+)_DONE",\s*(\d+),\s*(\d+),\s*(\d+)\s*>>')
 
 def validate_chunk(path, spec, workdir, consts=None):
     rc, out, wall = tlc(spec + ".tla", spec + ".cfg", workdir, env={"TRACE": path}, timeout=3000)
+    if spec == "Trace_Mem":
+        with open(path + ".Trace_Mem.out", "w") as f:
+            f.write("\n".join(l for l in out.splitlines() if "TRACE_MEM_ORD" in l or l.strip().startswith(("<<", '"')) or ">>" in l))
     lines = join_tuples(out)
     done = None
     viols = []
@@ -243,6 +246,22 @@ def run_and_validate(jobs, name, workdir, atomics="st", specs=("Trace_Abs",), np
                     res["viols"].append(v2)
     res["validate_s"] = time.time() - t1
     return res
+
+
+ORD_RE = re.compile(r'<<\s*"TRACE_MEM_ORD",\s*"([^"]*)",\s*"(\w+)",\s*"(\w+)",\s*"([\w-]+)"\s*>>')
+
+
+def collect_ords(files, workdir):
+    """site -> [kind, ordering, failure ordering] as extracted by Trace_Mem (kept in the validation output)."""
+    ords = {}
+    for p in files:
+        o = p + ".Trace_Mem.out"
+        if os.path.exists(o):
+            for l in join_tuples(open(o).read()):
+                m = ORD_RE.search(l)
+                if m:
+                    ords["%s %s" % (m.group(1), m.group(2))] = [m.group(3), m.group(4)]
+    return ords
 
 
 # ----------------------------------------------------------------------------- known findings
